@@ -144,6 +144,25 @@ func (p *MetadataPersister) MoveHeader(ctx context.Context, oldName string, newN
 	newName = p.getSanitizedPath(ctx, newName)
 	oldName = p.getSanitizedPath(ctx, oldName)
 
+	// If the header to move exists, it replaces whatever is still stored under the new name, i.e. the tombstone of an entry that has been deleted before
+	if oldName != newName {
+		sources, err := models.Headers(
+			qm.Where(models.HeaderColumns.Name+" = ?", oldName),
+		).All(ctx, p.sqlite.DB)
+		if err != nil {
+			return err
+		}
+
+		for _, source := range sources {
+			if _, err := models.Headers(
+				qm.Where(models.HeaderColumns.Name+" = ?", newName),
+				qm.Where(models.HeaderColumns.Linkname+" = ?", source.Linkname),
+			).DeleteAll(ctx, p.sqlite.DB); err != nil {
+				return err
+			}
+		}
+	}
+
 	// We can't do this with `dbhdr.Update` because we are renaming the primary key
 	n, err := queries.Raw(
 		fmt.Sprintf(
